@@ -807,7 +807,6 @@ impl<K: Kmer, D: Debug> DebruijnGraph<K, D> {
 
         for (next_node_id, incoming_dir, _) in node.edges(dir.flip()) {
             let next_node = self.get_node(next_node_id);
-            let new_score = state.score + score(next_node.data());
 
             let cycle = state
                 .path
@@ -822,8 +821,15 @@ impl<K: Kmer, D: Debug> DebruijnGraph<K, D> {
                 Status::Active
             };
 
+            // a node that is already on the path closes a cycle: the path ends here
+            // and must not list (or score) that node a second time
             let mut new_path = state.path.clone();
-            new_path.push((next_node_id as u32, incoming_dir));
+            let new_score = if cycle {
+                state.score
+            } else {
+                new_path.push((next_node_id as u32, incoming_dir));
+                state.score + score(next_node.data())
+            };
 
             let next_state = State {
                 path: new_path,
